@@ -150,6 +150,35 @@ pub fn install_panic_hook() {
     }));
 }
 
+/// Work done by the code under test that a watchdog may count as progress (names handed out, say). A scenario
+/// that is slow but advancing is not a hang; one that spins without getting anywhere is.
+pub static PROGRESS: std::sync::atomic::AtomicU64 = std::sync::atomic::AtomicU64::new(0);
+
+#[inline]
+pub fn progress() {
+    PROGRESS.fetch_add(1, std::sync::atomic::Ordering::Relaxed);
+}
+
+/// In a slice or worker process: a thread that prints the line `H` whenever `PROGRESS` has moved during the
+/// last two seconds. It never touches the scenario or its results.
+pub fn start_heartbeat() {
+    std::thread::spawn(|| {
+        use std::io::Write;
+        let mut last = 0u64;
+        loop {
+            std::thread::sleep(std::time::Duration::from_secs(2));
+            let now = PROGRESS.load(std::sync::atomic::Ordering::Relaxed);
+            if now != last {
+                last = now;
+                let out = std::io::stdout();
+                let mut o = out.lock();
+                let _ = writeln!(o, "H");
+                let _ = o.flush();
+            }
+        }
+    });
+}
+
 /// Runs `f`, converting a panic into `Err(message)`.
 pub fn catch<R, F: FnOnce() -> R>(f: F) -> Result<R, String> {
     let was = QUIET.with(|q| std::mem::replace(&mut *q.borrow_mut(), true));
